@@ -668,6 +668,20 @@ def r4(cx):
                         n_q += 1
                         cx.site(desc + ' -> quoted by yash_quote::quote')
                         continue
+                    # the text goes into a temporary string (format!) that is itself handed to the quoting function
+                    tt = Q.forward_taint(body, {t['dest']['l']}, stop_calls=['yash_quote::quoted', 'yash_quote::quote'])
+                    fmts = [(fb, ft) for fb, ft in body.calls() if Q.callee_is(ft, ['alloc::fmt::format', re.compile(r'^alloc::fmt::format(::format_inner)?$')])
+                            and any((Q.operand_place(a) or {}).get('l') in tt for a in ft['a'])]
+                    outs = [(fb, ft) for fb, ft in body.calls() if Q.callee_is(ft, [re.compile(r'::write_fmt$')])
+                            and any((Q.operand_place(a) or {}).get('l') in tt for a in ft['a'])]
+                    if fmts and not outs:
+                        t2 = Q.forward_taint(body, {ft['dest']['l'] for _, ft in fmts},
+                                             through_calls=[re.compile(r'Deref>::deref$|::as_str$|::borrow$|AsRef<.*>>::as_ref$|^core::hint::must_use$')])
+                        if any(Q.callee_is(qt, ['yash_quote::quoted', 'yash_quote::quote']) and
+                               any((Q.operand_place(a) or {}).get('l') in t2 for a in qt['a']) for _, qt in body.calls()):
+                            n_q += 1
+                            cx.site(desc + ' `%s` -> joined by format!, the joined text is given to yash_quote' % var)
+                            continue
                     held = None
                     for how, why in REVIEWED_TEXT.get(root, []):
                         ok = False
@@ -848,7 +862,7 @@ def r4b(cx):
                          "`typeset -x '-a b'=..` is then re-read as options", loc=b.loc(s))
 
 
-@RS.rule('C07.R4c', 'K-SIBLING', 'typeset -p: every character that makes the typeset parser read an operand as options is covered by the `--` separator test')
+@RS.rule('C07.R4c', 'K-SIBLING', 'typeset -p / typeset -fp: every character that makes the typeset parser read an operand as options is covered by the `--` separator test of both listings')
 def r4c(cx):
     import hirq as H
     F = cx.F
@@ -868,23 +882,29 @@ def r4c(cx):
         if lits and not prefixes:
             prefixes = lits          # the first such match in source order is the dispatch on the first character
     cx.require(prefixes, 'the first-character dispatch of typeset::syntax::try_parse_short was not found')
-    root = 'yash_builtin::typeset::print_variables::print_one'
-    h = F.hir_of(root)
-    cx.fn(root)
-    covered = set()
-    for x in H.walk(h['body']):
-        if x.get('k') == 'mcall' and x.get('name') == 'starts_with' and H.peel(x['recv']).get('name') == 'name':
-            a = H.peel(x['a'][0])
-            if a.get('k') == 'lit':
-                covered.add(a['v'])
-            elif a.get('k') == 'array':
-                covered |= {H.lit_value(e) for e in a['a']}
-    cx.site('typeset parser option prefixes %s; print_one protects names starting with %s' % (sorted(prefixes), sorted(covered)))
-    missing = sorted(prefixes - covered)
-    if missing:
-        cx.violation(root, 'option-prefix-unprotected:%s' % ''.join(missing), 'typeset reads an operand starting with %s as options, but the '
-                     'variable listing does not put `--` before a name starting with it: `typeset %sr=1` printed by typeset -p cannot be '
-                     'read back' % (' or '.join(repr(m) for m in missing), missing[0]), loc='%s:%s' % (h['file'], h['line']))
+    for root, what, example in (('yash_builtin::typeset::print_variables::print_one', 'variable', 'typeset %sr=1'),
+                                (None, 'function', '%sx() { :; }; typeset -fr -- %sx')):
+        if root is None:
+            cands = [k for k in F.hir if k.startswith('yash_builtin::typeset::print_functions::print_one')]
+            cx.require(len(cands) == 1, 'typeset::print_functions::print_one not found (%s)' % cands)
+            root = cands[0]
+        h = F.hir_of(root)
+        cx.fn(root)
+        covered = set()
+        for x in H.walk(h['body']):
+            if x.get('k') == 'mcall' and x.get('name') == 'starts_with' and H.peel(x['recv']).get('name') == 'name':
+                a = H.peel(x['a'][0])
+                if a.get('k') == 'lit':
+                    covered.add(a['v'])
+                elif a.get('k') == 'array':
+                    covered |= {H.lit_value(e) for e in a['a']}
+        cx.site('typeset parser option prefixes %s; the %s listing protects names starting with %s' % (sorted(prefixes), what, sorted(covered)))
+        missing = sorted(prefixes - covered)
+        if missing:
+            cx.violation(root, 'option-prefix-unprotected:%s' % ''.join(missing), 'typeset reads an operand starting with %s as options, but the '
+                         '%s listing does not put `--` before a name starting with it: `%s` printed by typeset -%sp cannot be read back'
+                         % (' or '.join(repr(m) for m in missing), what, example.replace('%s', missing[0]), 'f' if what == 'function' else ''),
+                         loc='%s:%s' % (h['file'], h['line']))
 
 
 def _walk_pat(p):
@@ -900,3 +920,80 @@ def _walk_pat(p):
     for f in p.get('fields') or []:
         out.extend(_walk_pat(f[1]))
     return out
+
+
+@RS.rule('C07.R4d', 'K-SIBLING', 'typeset -fp: a function whose name is spelled like a reserved word is printed so that it reads back as a function '
+         'definition (the listing must know the reserved words; the generic quoting function does not quote them)')
+def r4d(cx):
+    import hirq as H
+    F = cx.F
+    KWFN = 'yash_syntax::parser::lex::keyword::Keyword::as_str'
+    table, m = H.fn_match_table(F, KWFN, 'yash_syntax::parser::lex::keyword::Keyword')
+    words = set()
+    for variant, (i, arm) in table.items():
+        v = H.lit_value(H.peel(arm))
+        if isinstance(v, str):
+            words.add(v)
+    cx.require(len(words) >= 15, 'the reserved words could not be read from Keyword::as_str (%d found)' % len(words))
+    cands = [k for k in F.hir if k.startswith('yash_builtin::typeset::print_functions::print_one')]
+    cx.require(len(cands) == 1, 'typeset::print_functions::print_one not found')
+    root = cands[0]
+    h = F.hir_of(root)
+    cx.fn(root)
+    aware = None
+    for x in H.walk(h['body']):
+        d = str(x.get('def') or x.get('decl') or '')
+        if 'IsKeyword' in d or '::Keyword' in d or 'is_keyword' in d or 'first_word_is_keyword' in d:
+            aware = 'asks %s' % d.split('::')[-1]
+        if x.get('k') == 'path' and x.get('def') in F.hir and F.hir[x['def']]['kind'].startswith('Const'):
+            try:
+                v = H.const_eval(F.hir[x['def']]['body'])
+            except Exception:
+                v = None
+            if isinstance(v, list) and all(isinstance(e, str) for e in v):
+                missing = sorted(words - set(v))
+                if len(set(v) & words) >= 5:
+                    aware = 'tests the name against %s' % x['def'].split('::')[-1]
+                    if missing:
+                        cx.violation(root, 'reserved-word-list-incomplete', 'the reserved-word list used by the function listing lacks %s' % missing,
+                                     loc='%s:%s' % (h['file'], h['line']))
+    cx.site('typeset -fp (%s): %d reserved words in the parser; the listing %s' % (root.split('::')[-1], len(words), aware or 'does not test the name against them'))
+    if not aware:
+        cx.violation(root, 'reserved-word-name-unquoted', 'the function listing decides how to print the name from yash_quote alone, which leaves '
+                     'reserved words bare: `\\if() { echo ok; }; typeset -fp` prints `if() { echo ok; }`, which the parser reads as an `if` '
+                     'command (syntax error) - the listing does not recreate the function', loc='%s:%s' % (h['file'], h['line']))
+
+
+@RS.rule('C07.R4e', 'K-EFFECT', 'alias listing: name and value are quoted separately but read back as ONE word (`alias name=value` is an ordinary '
+         'operand, pathname expansion applies), so an opening bracket in the name must not be left to pair with a `]` in the value')
+def r4e(cx):
+    import hirq as H
+    F = cx.F
+    root = 'yash_builtin::alias::semantics::print'
+    h = F.hir_of(root)
+    cx.fn(root)
+    quoteds = [x for x in H.walk(h['body']) if x.get('k') == 'call' and str(x.get('def') or '').startswith('yash_quote::quote')]
+    cx.require(len(quoteds) >= 1, 'alias::semantics::print no longer quotes through yash_quote')
+    separately = [q for q in quoteds if any(y.get('k') == 'field' and y.get('name') in ('name', 'replacement') for y in H.walk(q['a'][0]))
+                  and not any(y.get('k') in ('call', 'mcall') and 'format' in str(y.get('def') or y.get('name') or '') for y in H.walk(q['a'][0]))]
+    guard = False
+    for x in H.walk(h['body']):
+        if x.get('k') == 'mcall' and x.get('name') in ('contains', 'find', 'starts_with', 'ends_with', 'chars', 'bytes') and \
+                any(y.get('k') == 'field' and y.get('name') == 'name' for y in H.walk(x['recv'])):
+            lits = {H.lit_value(y) for y in H.walk(x) if y.get('k') == 'lit'}
+            if '[' in lits:
+                guard = True
+    # or: the joined text itself is given to the quoting function (and its verdict used)
+    for q in quoteds:
+        src = q['a'][0]
+        names = {y.get('name') for y in H.walk(src) if y.get('k') == 'local'}
+        for st in H.walk(h['body']):
+            if st.get('k') == 'let' and st.get('pat', {}).get('k') == 'bind' and st['pat'].get('name') in names and st.get('init') is not None:
+                flds = {y.get('name') for y in H.walk(st['init']) if y.get('k') == 'field'}
+                if {'name', 'replacement'} <= flds:
+                    guard = True
+    cx.site('%s: %d separately quoted part(s) joined into one word; bracket test on the name / quoting verdict on the joined word: %s' % (root, len(separately), guard))
+    if len(separately) >= 2 and not guard:
+        cx.violation(root, 'joined-word-bracket-pair', 'name and value are each quoted on their own and written as `name=value`: with the alias '
+                     '`a[` = `b]` neither part needs quoting, the listing prints `a[=b]`, and `alias a[=b]` read back in a directory that '
+                     'contains a file `ab` is expanded to `alias ab` - the listing does not recreate the alias', loc='%s:%s' % (h['file'], h['line']))
